@@ -21,6 +21,10 @@ pub enum FaultKind {
     Zero,
     /// the operation returns ErrorKind::Interrupted
     Eintr,
+    /// a seek that moves the position and then reports Err(kind) (a layered stream that seeks its
+    /// inner stream and then fails: `Seek` does not promise where a failed seek leaves the stream);
+    /// on any other operation the same as Err(kind)
+    ErrMoved(u8),
 }
 
 pub fn err_kind(code: u8) -> ErrorKind {
@@ -240,7 +244,7 @@ impl Write for Handle {
         };
         if let Some(f) = w.planned(dev, op) {
             match f {
-                FaultKind::Err(k) => {
+                FaultKind::Err(k) | FaultKind::ErrMoved(k) => {
                     ev.err = Some(err_kind(k));
                     ev.fault = Some("err");
                     w.fire("w-err");
@@ -324,7 +328,7 @@ impl Write for Handle {
         };
         if let Some(f) = w.planned(dev, op) {
             let k = match f {
-                FaultKind::Err(k) => err_kind(k),
+                FaultKind::Err(k) | FaultKind::ErrMoved(k) => err_kind(k),
                 FaultKind::Zero => ErrorKind::WriteZero,
                 FaultKind::Eintr => ErrorKind::Interrupted,
             };
@@ -358,7 +362,7 @@ impl Read for Handle {
         };
         if let Some(f) = w.planned(dev, op) {
             let k = match f {
-                FaultKind::Err(k) => err_kind(k),
+                FaultKind::Err(k) | FaultKind::ErrMoved(k) => err_kind(k),
                 FaultKind::Zero => ErrorKind::Other,
                 FaultKind::Eintr => ErrorKind::Interrupted,
             };
@@ -417,13 +421,28 @@ impl Seek for Handle {
         };
         if let Some(f) = w.planned(dev, op) {
             let k = match f {
-                FaultKind::Err(k) => err_kind(k),
+                FaultKind::Err(k) | FaultKind::ErrMoved(k) => err_kind(k),
                 FaultKind::Zero => ErrorKind::Other,
                 FaultKind::Eintr => ErrorKind::Interrupted,
             };
+            if let FaultKind::ErrMoved(_) = f {
+                // the position changes, then the failure is reported
+                let len = w.devices[dev].data.len() as i128;
+                let target: i128 = match to {
+                    SeekFrom::Start(n) => n as i128,
+                    SeekFrom::End(d) => len + d as i128,
+                    SeekFrom::Current(d) => self.pos as i128 + d as i128,
+                };
+                if target >= 0 && target <= u64::MAX as i128 {
+                    self.pos = target as u64;
+                    ev.pos = self.pos;
+                }
+                w.fire("seek-err-moved");
+            } else {
+                w.fire("seek-err");
+            }
             ev.err = Some(k);
             ev.fault = Some("err");
-            w.fire("seek-err");
             w.log.push(ev);
             return Err(ioerr(k));
         }
